@@ -40,6 +40,20 @@ func (s *Sim) stepExt(op *Op) bool {
 		s.opRestart()
 	case "pubrel":
 		sl := s.Slots[op.C]
+		if op.Collide {
+			// use an id that the broker has outstanding towards this client (its own outbound id space)
+			ids := make([]int, 0, len(sl.inflight))
+			for k := range sl.inflight {
+				ids = append(ids, int(k))
+			}
+			sort.Ints(ids)
+			op.PID = 1
+			if len(ids) > 0 {
+				op.PID = uint16(ids[0])
+				sl.Sess.Taint["pid_collision"] = true
+				s.M.count("pubrel_with_colliding_id")
+			}
+		}
 		s.clientSend(sl, &rc.Packet{Type: rc.PUBREL, Version: sl.Ver, PacketID: op.PID})
 		what := "PUBCOMP for PUBREL"
 		if _, ok := sl.Sess.InQ2[op.PID]; !ok {
@@ -142,8 +156,14 @@ func (s *Sim) opTick(op *Op) {
 	// virtual time: every stored timestamp becomes Delta seconds older, then housekeeping runs on the real clock
 	s.B.S.VerifAgeState(op.Delta)
 	now = s.realNow()
-	s.B.S.VerifSendDelayedLWT(now)
-	s.B.S.VerifClearExpiredClients(now)
+	// the event loop's tickers fire in no fixed order: both orders of the will and the session sweep are exercised
+	if op.N%2 == 1 {
+		s.B.S.VerifClearExpiredClients(now)
+		s.B.S.VerifSendDelayedLWT(now)
+	} else {
+		s.B.S.VerifSendDelayedLWT(now)
+		s.B.S.VerifClearExpiredClients(now)
+	}
 	s.B.S.VerifClearExpiredRetainedMessages(now)
 	s.B.S.VerifClearExpiredInflights(now)
 }
